@@ -9,7 +9,10 @@ import fcntl, glob, hashlib, json, os, random, re, shutil, subprocess, sys, time
 VERIF = os.path.dirname(os.path.dirname(os.path.abspath(__file__)))
 REPO = os.environ.get("VERIF_REPO", "/repo")
 BUILD = os.environ.get("VERIF_BUILD", os.path.join(VERIF, ".build"))
-COQ = os.path.join(VERIF, "coq")
+# VERIF_COQ: a run against a scratch tree (bin/seedtest) works on its own copy of the Coq development - the translators regenerate
+# coq/Gen for the tree under test, which must not disturb a check that runs against /repo at the same time
+COQ = os.environ.get("VERIF_COQ") or os.path.join(VERIF, "coq")
+OCAML_GEN = os.path.join(os.path.dirname(COQ), "ocaml", "gen")
 GUARD = "SQFVM_RUNTIME_VERIF"
 NPROC = os.cpu_count() or 4
 
@@ -33,6 +36,9 @@ class Lock:
     def __init__(self, name):
         os.makedirs(BUILD, exist_ok=True)
         self.path = os.path.join(BUILD, name + ".lock")
+        if name in ("coq", "syntax-gen"):
+            # these guard the Coq development, which two runs with different build directories may share
+            self.path = os.path.join(os.path.dirname(COQ), "." + name + ".lock")
 
     def __enter__(self):
         self.f = open(self.path, "w")
@@ -362,7 +368,7 @@ def coq_hygiene():
 
 def ocaml_driver(name, timeout=900):
     """Extract coq/Extract_<name>.v (-> ocaml/gen/<name>_model.ml) and link ocaml/<name>_driver.ml."""
-    gen = os.path.join(VERIF, "ocaml", "gen")
+    gen = OCAML_GEN
     os.makedirs(gen, exist_ok=True)
     exe = os.path.join(BUILD, "ocaml", name + "_driver")
     os.makedirs(os.path.dirname(exe), exist_ok=True)
